@@ -448,6 +448,8 @@ def flatten_cond(test: ast.expr, pol: bool) -> list[tuple[str, bool]]:
     a > b, b < a, not a <= b  all become ('a > b', True)."""
     if isinstance(test, ast.UnaryOp) and isinstance(test.op, ast.Not):
         return flatten_cond(test.operand, not pol)
+    if isinstance(test, ast.Constant) and bool(test.value) == pol:
+        return []  # `while True:` contributes no condition
     if isinstance(test, ast.BoolOp):
         if (isinstance(test.op, ast.And) and pol) or (isinstance(test.op, ast.Or) and not pol):
             out = []
@@ -509,6 +511,8 @@ def atoms_of(test: ast.expr, pol: bool = True, expand=None) -> list[tuple[str, b
     def rec(t, p):
         if isinstance(t, ast.UnaryOp) and isinstance(t.op, ast.Not):
             return rec(t.operand, not p)
+        if isinstance(t, ast.Constant) and bool(t.value) == p:
+            return
         if isinstance(t, ast.BoolOp) and ((isinstance(t.op, ast.And) and p) or (isinstance(t.op, ast.Or) and not p)):
             for v in t.values:
                 rec(v, p)
@@ -556,7 +560,7 @@ def unit_propagate(atoms: list) -> list:
                 _disj_cache[t] = ops
             if not ops:
                 continue
-            open_ = [pos for pos, neg in ops if not all(a in known for a in neg)]
+            open_ = [pos for pos, neg in ops if not _refuted(pos, neg, known)]
             if len(open_) == 1:
                 for a in open_[0]:
                     if a not in known:
@@ -568,6 +572,18 @@ def unit_propagate(atoms: list) -> list:
     return atoms
 
 
+def _refuted(pos: list, neg: list, known: set) -> bool:
+    """an operand (pos = its atoms when it holds, neg = the atoms of its negation) cannot hold given `known`:
+    its negation is known, or - for a conjunction operand - one of its conjuncts is known to fail"""
+    if all(a in known for a in neg):
+        return True
+    for a in pos:
+        n = negate(a)
+        if n is not None and n in known:
+            return True
+    return False
+
+
 def contradictory(atoms: list) -> bool:
     """some atom together with its negation, or a holding disjunction all of whose operands are refuted"""
     known = set(atoms)
@@ -576,7 +592,7 @@ def contradictory(atoms: list) -> bool:
         if p and t.startswith("(") and " or " in t:
             unit_propagate([a])  # fills the cache
             ops = _disj_cache.get(t) or []
-            if ops and all(all(x in known for x in neg) for pos, neg in ops):
+            if ops and all(_refuted(pos, neg, known) for pos, neg in ops):
                 return True
         else:
             n = negate(a)
